@@ -49,10 +49,20 @@ TRANSPARENT = {
 }
 
 
+import re as _re0
+_TRANSPARENT_IMPL = _re0.compile(
+    r"^<.* as (std::clone::Clone|std::ops::Deref|std::ops::DerefMut|std::convert::From|std::convert::Into|"
+    r"std::convert::AsRef|std::convert::AsMut|std::borrow::Borrow|std::borrow::BorrowMut|std::borrow::ToOwned)>::"
+    r"(clone|deref|deref_mut|from|into|as_ref|as_mut|borrow|borrow_mut|to_owned)$")
+
+
 def is_transparent(key):
     if key is None:
         return False
     if key in TRANSPARENT:
+        return True
+    m = _TRANSPARENT_IMPL.match(key)
+    if m:
         return True
     # error-context adaptors of any crate (`anyhow::Context`, `libwild::error::Context`)
     if key.endswith("Context>::context") or key.endswith("Context>::with_context") or key.endswith("Context::context") or key.endswith("Context::with_context"):
@@ -251,14 +261,69 @@ class Cfg:
         return a in self.pdom().get(b, ())
 
     # --- edge facts --------------------------------------------------------------------------
+    def _phi_bools(self):
+        """switch block -> {bool value: [def blocks]} for switches on a bool local whose every
+        definition is a constant assignment (the lowering of `matches!`, `a && b` stored in a let)."""
+        defs = {}
+        bad = set()
+        for bi, b in enumerate(self.body.blocks):
+            if b.get("cleanup"):
+                continue
+            for s in b["s"]:
+                if s["k"] != "assign":
+                    continue
+                l, proj = s["p"]
+                if proj:
+                    bad.add(l)
+                    continue
+                rv = s["rv"]
+                if rv["k"] == "use" and rv["a"][0] == "k" and rv["a"][1].get("ty") == "bool" and rv["a"][1].get("val") in (0, 1):
+                    defs.setdefault(l, []).append((bi, bool(rv["a"][1]["val"])))
+                else:
+                    bad.add(l)
+            t = b["t"]
+            if t["k"] == "call":
+                bad.add(t["dest"][0])
+        out = {}
+        for sb in self.reach:
+            t = self.body.blocks[sb]["t"]
+            if t["k"] != "switch" or t["dty"] != "bool" or t["d"][0] == "k":
+                continue
+            l, proj = t["d"][1]
+            if proj or l in bad or l not in defs or len(defs[l]) < 2:
+                continue
+            m = {}
+            for bi, v in defs[l]:
+                m.setdefault(v, []).append(bi)
+            out[sb] = m
+        return out
+
     def edge_facts(self):
         """For each reachable block: the set of switch edges (switch_block, label) that lie on every
-        path from entry to the block (forward must-analysis; equals edge dominance)."""
+        path from entry to the block (forward must-analysis; equals edge dominance), extended through
+        materialised booleans: on the `true` edge of a switch on a bool that is only ever assigned
+        constants, the facts common to the blocks that assign `true` hold."""
         if self._edge_facts is None:
             order = self._rpo()
             TOP = None
             IN = {x: TOP for x in order}
             IN[0] = frozenset()
+            phi = self._phi_bools()
+
+            def label_value(p, lab):
+                t = self.body.blocks[p]["t"]
+                listed = {v for v, _ in t["arms"]}
+                if lab == 0:
+                    return False
+                if lab == 1:
+                    return True
+                if lab == "else":
+                    if listed == {0}:
+                        return True
+                    if listed == {1}:
+                        return False
+                return None
+
             changed = True
             while changed:
                 changed = False
@@ -276,6 +341,13 @@ class Cfg:
                                 labs = [l for l, t in self.succ[p] if t == x]
                                 if len(labs) == 1:
                                     out = out | {(p, labs[0])}
+                                    if p in phi:
+                                        v = label_value(p, labs[0])
+                                        srcs = phi[p].get(v, []) if v is not None else []
+                                        srcs = [d for d in srcs if d in IN and IN[d] is not TOP]
+                                        if srcs and len(srcs) == len(phi[p].get(v, [])):
+                                            common = frozenset.intersection(*(IN[d] for d in srcs))
+                                            out = out | common
                             acc = out if acc is TOP else (acc & out)
                         new = acc
                     if new is not TOP and new != IN[x]:
@@ -283,6 +355,9 @@ class Cfg:
                         changed = True
             self._edge_facts = {x: (v if v is not None else frozenset()) for x, v in IN.items()}
         return self._edge_facts
+
+
+_PROMOTED = _re0.compile(r"promoted\[(\d+)\]")
 
 
 class Flow:
@@ -349,6 +424,10 @@ class Flow:
                     out.add(("fnref", callee_key(c["fnref"])))
                 else:
                     out.add(("const", c.get("val"), c.get("text")))
+                    m = _PROMOTED.search(c.get("text") or "")
+                    if m:
+                        for leaf in self._promoted_leaves(int(m.group(1))):
+                            out.add(leaf)
 
         def visit_rv(rv, bi, depth):
             k = rv["k"]
@@ -374,6 +453,24 @@ class Flow:
                 out.add(("op", "other", bi))
 
         visit_op(op, 0)
+        return out
+
+    def _promoted_leaves(self, idx):
+        """Aggregates and constants built inside promoted constant `idx` of this body."""
+        out = []
+        prom = self.body.d.get("promoted") or []
+        if idx >= len(prom):
+            return out
+        for blk in prom[idx]:
+            for st in blk["s"]:
+                if st["k"] != "assign":
+                    continue
+                rv = st["rv"]
+                if rv["k"] == "agg" and rv["ak"] == "adt":
+                    out.append(("agg", norm_path(rv["adt"]) + "::" + rv["variant"], -1))
+                for o in _rv_operands(rv):
+                    if o[0] == "k" and "fnref" not in o[1]:
+                        out.append(("const", o[1].get("val"), o[1].get("text")))
         return out
 
     def origin_calls(self, op, through=is_transparent):
@@ -717,6 +814,8 @@ def bool_edge_blocks(body, flow, cfg, callee_pred):
 
 def direct_call_of_switch(body, flow, sb):
     """The call whose result is switched on directly (through moves/copies/Not), else None."""
+    if body.blocks[sb]["t"]["k"] != "switch":
+        return None
     op = body.blocks[sb]["t"]["d"]
     for _ in range(20):
         pl = op_place(op)
@@ -848,6 +947,8 @@ def switch_bool_labels(body, flow, cfg, sb):
 
 def switch_source_call(body, flow, sb):
     """(callee key, call block, terminator) of the call whose result the switch tests directly."""
+    if body.blocks[sb]["t"]["k"] != "switch":
+        return None
     op = body.blocks[sb]["t"]["d"]
     for _ in range(20):
         pl = op_place(op)
@@ -868,3 +969,110 @@ def switch_source_call(body, flow, sb):
             continue
         return None
     return None
+
+
+# ---- type-aware helpers (need ADT headers) -------------------------------------------------------
+def _strip_ref(ty):
+    ty = ty.strip()
+    changed = True
+    while changed:
+        changed = False
+        if ty.startswith("&"):
+            ty = ty[1:].lstrip()
+            if ty.startswith("'"):
+                ty = ty.split(" ", 1)[1] if " " in ty else ty
+            if ty.startswith("mut "):
+                ty = ty[4:]
+            changed = True
+        for w in ("std::boxed::Box<", "std::sync::Arc<", "std::rc::Rc<"):
+            if ty.startswith(w) and ty.endswith(">"):
+                ty = ty[len(w):-1]
+                changed = True
+    return ty
+
+
+def _adt_lookup(facts, ty):
+    return facts.adt(norm_path(_strip_ref(ty)))
+
+
+def place_type(facts, body, place):
+    """Type string of a place, following field projections through workspace ADT definitions."""
+    local, proj = place
+    ty = body.locals[local]
+    variant = None
+    for p in proj:
+        if p == "*":
+            ty = _strip_ref(ty) if ty.lstrip().startswith("&") or ty.startswith(("std::boxed::Box<", "std::sync::Arc<")) else ty
+            continue
+        if p.startswith("@"):
+            variant = p[1:]
+            continue
+        if p.startswith("."):
+            adt = _adt_lookup(facts, ty)
+            if adt is None:
+                return None
+            vs = adt["variants"]
+            v = None
+            if variant is not None:
+                v = next((x for x in vs if x["name"] == variant), None)
+            elif len(vs) == 1:
+                v = vs[0]
+            if v is None:
+                return None
+            f = next((x for x in v["fields"] if x["name"] == p[1:]), None)
+            if f is None:
+                return None
+            ty = f["ty"]
+            variant = None
+            continue
+        return None
+    return ty
+
+
+def enum_switch(facts, body, flow, cfg, sb):
+    """For a switch on the discriminant of a workspace enum (or Option/Result):
+    (adt path, {edge label: frozenset(variant names)}) else None."""
+    t = body.blocks[sb]["t"]
+    if t["k"] != "switch":
+        return None
+    info = switch_predicate(body, flow, sb)
+    if not info["discr_of"]:
+        return None
+    ty = place_type(facts, body, info["discr_of"])
+    if ty is None:
+        return None
+    base = norm_path(_strip_ref(ty))
+    if base == "std::option::Option":
+        names = ["None", "Some"]
+    elif base == "std::result::Result":
+        names = ["Ok", "Err"]
+    elif base == "std::ops::ControlFlow":
+        names = ["Continue", "Break"]
+    else:
+        adt = facts.adt(base)
+        if adt is None or adt["kind"] != "Enum":
+            return None
+        names = [v["name"] for v in adt["variants"]]
+    listed = set()
+    out = {}
+    for v, _tgt in t["arms"]:
+        if v < len(names):
+            out[v] = frozenset([names[v]])
+            listed.add(names[v])
+    out["else"] = frozenset(n for n in names if n not in listed)
+    return base, out
+
+
+def variant_blocks(facts, body, flow, cfg, adt_path, variants):
+    """Blocks only reached when a value of enum `adt_path` was matched as one of `variants`
+    (edge-dominated by such an arm of some discriminant switch on that enum)."""
+    ef = cfg.edge_facts()
+    edges = set()
+    for sb in cfg.reach:
+        es = enum_switch(facts, body, flow, cfg, sb)
+        if not es or es[0] != adt_path:
+            continue
+        for lab, names in es[1].items():
+            if names and names <= frozenset(variants):
+                edges.add((sb, lab))
+    return {b for b in cfg.reach if ef.get(b, frozenset()) & edges}
